@@ -18,7 +18,7 @@ import (
 )
 
 const c14Rule = "pre-built roots (healthy from a writable history, legacy fallback-tag layouts that are adoptable or need regeneration, corrupt: garbage index.json / missing oci-layout / wrong blob bytes / stray files / index.json as directory) " +
-	"x {dir+ReadOnly, mem+RootDir, writable dir} x PushEnabled x DeleteEnabled x Blob.DeleteEnabled x Referrer.Enabled, GC ticker 1 ms on read-only configurations; request mix with every method on every endpoint, then Close; " +
+	"x {dir+ReadOnly, mem+RootDir, mem+RootDir+ReadOnly, writable dir} x PushEnabled x DeleteEnabled x Blob.DeleteEnabled x Referrer.Enabled, GC ticker 1 or 15 ms (first tick before or after the repositories were loaded) with the most aggressive policy on read-only configurations; request mix with every method on every endpoint, then Close; " +
 	"oracle = byte/mtime-exact tree snapshot (and of the parent directory), status class per switch, pre-existing content served, read sweep unchanged by refused requests; " +
 	"non-trivial = >=1 mutating request of each of {upload, manifest PUT, delete} was sent and the root held >=1 repository; distinct = hash of root kind + switches + request trace"
 
@@ -39,7 +39,8 @@ func c14Property(t *rapid.T, st *Stats) {
 		sort.Strings(cl)
 		st.Case(trace, sent["upload"] && sent["manifest"] && sent["delete"], cl...)
 	}()
-	mode := rapid.SampledFrom([]string{"dir+ro", "dir+ro", "mem+root", "dir-writable-switches-off"}).Draw(t, "mode")
+	mode := rapid.SampledFrom([]string{"dir+ro", "dir+ro", "mem+root", "mem+root+ro", "dir-writable-switches-off"}).Draw(t, "mode")
+	tick := rapid.SampledFrom([]time.Duration{time.Millisecond, 15 * time.Millisecond}).Draw(t, "gcFrequency")
 	push, del, blobDel, ref := rapid.Bool().Draw(t, "push"), rapid.Bool().Draw(t, "delete"), rapid.Bool().Draw(t, "blobDelete"), rapid.IntRange(0, 3).Draw(t, "referrer") > 0
 	// ---- build the root
 	rootKind := rapid.SampledFrom([]string{"healthy", "healthy", "legacy-adoptable", "legacy-any", "corrupt"}).Draw(t, "rootKind")
@@ -159,7 +160,13 @@ func c14Property(t *rapid.T, st *Stats) {
 	switch mode {
 	case "dir+ro":
 		conf.Storage.ReadOnly = bp(true)
-		conf.Storage.GC.Frequency = time.Millisecond
+		conf.Storage.GC.Frequency = tick
+	case "mem+root+ro":
+		// a read-only memory store over the directory: nothing on disk changes, and nothing readable either
+		// (a ticker that runs would prune the in-memory index under this policy)
+		conf.Storage.StoreType = config.StoreMem
+		conf.Storage.ReadOnly = bp(true)
+		conf.Storage.GC.Frequency = tick
 	case "mem+root":
 		conf.Storage.StoreType = config.StoreMem
 		conf.Storage.GC.Frequency = time.Millisecond
@@ -176,6 +183,10 @@ func c14Property(t *rapid.T, st *Stats) {
 			mode = "dir+ro"
 			conf.Storage.ReadOnly = bp(true)
 		}
+	}
+	ro := mode == "dir+ro" || mode == "mem+root+ro"
+	if ro {
+		trace = append(trace, fmt.Sprintf("gcFrequency=%v", conf.Storage.GC.Frequency))
 	}
 	conf.API.PushEnabled, conf.API.DeleteEnabled, conf.API.Blob.DeleteEnabled, conf.API.Referrer.Enabled = bp(push), bp(del), bp(blobDel), bp(ref)
 	if !ref && rootKind != "healthy" {
@@ -200,7 +211,10 @@ func c14Property(t *rapid.T, st *Stats) {
 		}
 		return sb.String()
 	}
-	time.Sleep(3 * time.Millisecond) // let a wrongly started ticker tick
+	started := time.Now()
+	if tick == time.Millisecond {
+		time.Sleep(3 * time.Millisecond) // let a wrongly started ticker tick before anything is loaded
+	}
 	sweep0 := ""
 	if mode != "mem+root" {
 		sweep0 = readSweep()
@@ -255,10 +269,15 @@ func c14Property(t *rapid.T, st *Stats) {
 		if !mutating {
 			return
 		}
-		if !enabled || (mode == "dir+ro") {
+		if !enabled || ro {
 			if r.code < 400 || r.code >= 500 {
 				if rootKind == "corrupt" && r.code >= 500 {
 					return // storage is not healthy: 5xx is not a client error here (C15)
+				}
+				if ro && legacyRegen && r.code >= 500 && avoid("C14/ro-legacy-regeneration") {
+					// finding 22: the repository cannot be opened at all by a read-only store, every request to it fails
+					st.Exclude("C14/ro-legacy-regeneration")
+					return
 				}
 				fail("not-refused", "%s on %s (push=%v delete=%v blobDelete=%v) answered %d, want 4xx", what, mode, push, del, blobDel, r.code)
 			}
@@ -340,10 +359,13 @@ func c14Property(t *rapid.T, st *Stats) {
 		}
 	}
 	time.Sleep(3 * time.Millisecond)
+	if ro && time.Since(started) < tick+5*time.Millisecond {
+		time.Sleep(tick + 5*time.Millisecond - time.Since(started)) // ... and after the repositories were loaded
+	}
 	// refused requests leave all readable state unchanged (not for mem+root, whose in-memory writes are legitimate)
 	// open finding 22: a read-only dir store over a legacy layout that needs a regenerated response answers
 	// depending on the one-second index re-check window; the comparison is skipped there while the finding is open
-	roLegacy := mode == "dir+ro" && legacyRegen
+	roLegacy := ro && legacyRegen
 	if roLegacy && avoid("C14/ro-legacy-regeneration") {
 		st.Exclude("C14/ro-legacy-regeneration")
 	} else if !memWrites && (expectServe || roLegacy) {
